@@ -632,8 +632,99 @@ func (env *c14Env) copySweep(sp *c14Spec, src []byte) {
 				}
 			}
 		}
+		if sp.Name == "two-groups-bloom" && d == "mem" {
+			env.vmCopy(sp, lay)
+		}
 		if c.HasOracle() {
 			c.Ask(fmt.Sprintf("c14.copydrop %d", lay.id))
+		}
+	}
+}
+
+// vmCopy writes the items of one copy and a sample of outcomes of the Go
+// writer for the vm_compute cross-check (cases.v).
+func (env *c14Env) vmCopy(sp *c14Spec, lay *c14CopyLayout) {
+	kindNames := []string{"KHeader", "KCopiedDict", "KCopiedData", "KDictPage", "KDictPageEnc", "KDataPages", "KCopiedBloom", "KBloomInline", "KBloomInlineEnc",
+		"KBloomDeferred", "KColumnIndex", "KColumnIndexEnc", "KOffsetIndex", "KOffsetIndexEnc", "KFooter", "KFooterCrypto", "KFooterSigned", "KFooterTail"}
+	mechNames := []string{"MWrite", "MWriteTo", "MLowerWriteTo", "MLowerCopy"}
+	ctr := 0
+	pieces := func(ps []c14Piece) string {
+		var out []string
+		for _, p := range ps {
+			out = append(out, fmt.Sprintf("(%s, bytes %d %d)", core.CoqBool(p.str), ctr, p.n))
+			ctr += p.n
+		}
+		return core.CoqList(out)
+	}
+	var items, callmap []string
+	for _, it := range lay.items {
+		switch it.typ {
+		case 'p':
+			items = append(items, fmt.Sprintf("IPlain (mkSite %s %s %s)", kindNames[it.kind], mechNames[it.mech], pieces(it.pieces)))
+		case 'c':
+			items = append(items, fmt.Sprintf("ICopied %s %s %d", kindNames[it.kind], pieces(it.pieces), it.n))
+		case 's':
+			items = append(items, fmt.Sprintf("IStage %s %d", pieces(it.pieces), it.n))
+		case 'f':
+			items = append(items, "IFlushDeferred "+mechNames[it.mech])
+		}
+		callmap = append(callmap, fmt.Sprintf("%d%%nat", it.call))
+	}
+	env.vmCopyDefs = []string{
+		"Definition citems : list (item N) := [\n  " + strings.Join(items, ";\n  ") + "].",
+		"Definition ccallmap : list nat := " + core.CoqList(callmap) + ".",
+		fmt.Sprintf("Definition cclose : nat := %d%%nat.", lay.closeCall),
+		fmt.Sprintf("Definition cncalls : nat := %d%%nat.", len(lay.calls)),
+	}
+	n := len(lay.ref)
+	var srcItems []int
+	for i, it := range lay.items {
+		if it.typ == 'c' || it.typ == 's' {
+			srcItems = append(srcItems, i)
+		}
+	}
+	add := func(buf int, f c14Fault, item, avail int) {
+		cfg := c14Cfg{Buf: buf, Pool: "default", Deferred: "mem"}
+		src := &c14CutReader{data: lay.src}
+		sh := "None"
+		if item >= 0 {
+			it := lay.items[item]
+			src.start, src.end, src.avail, src.arm = it.srcOff, it.srcOff+it.n, avail, env.armOf(sp, cfg, lay, item)
+			sh = fmt.Sprintf("(Some (%d%%nat, %d))", item, avail)
+		}
+		sink := c14NewSink(f)
+		o, _ := env.runCopy(sp, cfg, src, int64(len(lay.src)), sink, sink)
+		if o.Hang || o.Panic != "" {
+			return
+		}
+		code := map[string]int{"nil": 0, "sink": 1, "short": 2, "other": 3, "unexpected-eof": 4}[c14ErrKind(o)]
+		call := len(lay.calls)
+		if o.First >= 0 {
+			call = o.First
+		}
+		bs := "None"
+		if buf > 0 {
+			bs = fmt.Sprintf("(Some %d)", buf)
+		}
+		fl := "NoFault"
+		switch f.Kind {
+		case "err":
+			fl = fmt.Sprintf("(ErrAt %d)", f.K)
+		case "short":
+			fl = fmt.Sprintf("(ShortAt %d)", f.K)
+		}
+		env.vmCopyCases = append(env.vmCopyCases, fmt.Sprintf("(%s, %s, %s, (%d, %d, %s)%%nat)", bs, fl, sh, code, call, core.CoqBool(bytes.Equal(o.Bytes, lay.ref))))
+	}
+	for _, buf := range []int{0, 7} {
+		add(buf, c14Fault{Kind: "none"}, -1, 0)
+		for j, i := range srcItems {
+			if j%3 == 0 || lay.items[i].typ == 's' {
+				add(buf, c14Fault{Kind: "none"}, i, lay.items[i].n/2)
+			}
+		}
+		for _, k := range []int{0, 3, 4, n / 3, n / 2, n - 9, n - 1} {
+			add(buf, c14Fault{Kind: "err", K: k}, -1, 0)
+			add(buf, c14Fault{Kind: "short", K: k}, -1, 0)
 		}
 	}
 }
